@@ -174,6 +174,7 @@ def run(ctx):
     for t in need:
         if ctx.tags.get(t, 0) == 0:
             ctx.violation("TAG", [t], "corpus", f"a corpus program that overrides {t.split('.')[-1]}", "none", "corpus adequacy")
+    C.corpus_adequacy(ctx, enforce=False)
     ctx.floor("C06.set", 25)
     ctx.floor("C06.body", 100)
     ctx.floor("C06.mt", 180)
